@@ -250,7 +250,7 @@ MANIFEST = {
     "note": "v2 patterns of grammar G; legacy patterns only for the full-match requirement (a valid greater version followed by "
             "text that no legacy part can match); the start version is the config value "
             "(tag scopes: C09). Cannot prove absence.",
-    "technique": "property-based testing (Hypothesis, grammar-decoded cases) with reference recogniser + PEP 440 order oracle",
+    "technique": "property-based testing (Hypothesis, grammar-decoded cases) with reference recogniser + PEP 440 order oracle; plus coverage-guided fuzzing (atheris/libFuzzer) of the same byte decoder and oracle",
 }
 
 
